@@ -297,12 +297,19 @@ func (env *LEnv) UsePackage(name *LVal) *LVal {
 	if pkg == nil {
 		return env.Errorf("unknown package: %v", name.Str)
 	}
-	for _, sym := range pkg.externals {
+	// Look every exported name up before binding any of them: a package that
+	// exports a name it never defined is refused as a whole, rather than
+	// leaving the names that sort before the missing one imported.
+	vals := make([]*LVal, len(pkg.externals))
+	for i, sym := range pkg.externals {
 		v := pkg.Get(Symbol(sym))
 		if v.Type == LError {
 			return env.Errorf("package %s: %v", name.Str, v)
 		}
-		env.Runtime.Package.Put(Symbol(sym), v)
+		vals[i] = v
+	}
+	for i, sym := range pkg.externals {
+		env.Runtime.Package.Put(Symbol(sym), vals[i])
 	}
 	return Nil()
 }
